@@ -16,7 +16,7 @@ Open Scope Z_scope.
 """
 
 BITS = {'outcome': 1, 'dates': 2, 'rows': 4, 'c03': 8, 'c04': 16, 'c02': 32, 'c07': 64, 'c08': 128,
-        'c09': 256, 'c06': 512, 'crash': 1024, 'model_oracle': 2048, 'illformed': 4096}
+        'c09': 256, 'c06': 512, 'crash': 1024, 'model_oracle': 2048, 'illformed': 4096, 'foreign_rows': 8192}
 
 
 # ---------- calendars on the dyadic grid --------------------------------------------------------------
@@ -140,8 +140,10 @@ def gen_case(rng, force_dir=None):
     ext = []
     for j in range(rng.choice([0, 0, 0, 1, 1, 2])):
         e_end = day_us(rng.randint(-10, 12), rng.choice([0, 12 * H]))
-        x = {'id': 100 + j, 'start': e_end - rng.randint(0, 5) * DAY, 'end': e_end, 'in_wbs': rng.random() < 0.7,
-             'est': rng.choice([None, 8])}
+        # ids are unique per tree, not globally: an outside task may carry the id of a member
+        free_ids = [i for i in ids if i not in [e['id'] for e in ext]]
+        x = {'id': rng.choice(free_ids) if free_ids and rng.random() < 0.3 else 100 + j, 'start': e_end - rng.randint(0, 5) * DAY, 'end': e_end,
+             'in_wbs': rng.random() < 0.7, 'est': rng.choice([None, 8])}
         if rng.random() < 0.08:
             x[rng.choice(['start', 'end'])] = None
         ext.append(x)
@@ -323,10 +325,15 @@ def evaluate(ctx, cases, jobs=12):
     chunks = [cases[i:i + 25] for i in range(0, len(cases), 25)]
     outs = [o for part in ctx.impl_run_many('sched_impl', chunks, jobs=jobs) for o in part]
     kept = [(c, o) for c, o in zip(cases, outs) if 'offgrid' not in o]
-    grid = [i for i, (c, o) in enumerate(kept) if not c.get('offgrid')]
-    off = [i for i, (c, o) in enumerate(kept) if c.get('offgrid')]
+    # a usage report with rows of tasks/resources that are not in the returned schedule cannot be related to
+    # it at all (and may be arbitrarily large): such an observation is not sent to Coq, it is reported as it is
+    foreign = set(i for i, (c, o) in enumerate(kept) if (o.get('obs') or {}).get('row_unknown_task_or_resource'))
+    grid = [i for i, (c, o) in enumerate(kept) if not c.get('offgrid') and i not in foreign]
+    off = [i for i, (c, o) in enumerate(kept) if c.get('offgrid') and i not in foreign]
     codes = [0] * len(kept)
-    gcodes = ctx.coq_codes('sched', HEADER, 'scase', [emit_case(*kept[i]) for i in grid], 'check_case', shard=40, jobs=jobs)
+    for i in foreign:
+        codes[i] = BITS['foreign_rows']
+    gcodes = ctx.coq_codes('sched', HEADER, 'scase', [emit_case(*kept[i]) for i in grid], 'check_case', shard=40, jobs=jobs, timeout=240)
     for i, c in zip(grid, gcodes):
         codes[i] = c
     # off the dyadic grid: oracles only, exact rationals scaled by K, tolerance 2e-9 of a 16-unit day on the capacity bound
@@ -336,7 +343,7 @@ def evaluate(ctx, cases, jobs=12):
     for K, ixs in byk.items():
         eps = K * 32 // 10 ** 9 + 1
         ocodes = ctx.coq_codes('schedoff%d' % (K.bit_length()), OFF_HEADER, 'scase', [emit_case(*kept[i]) for i in ixs],
-                               '(check_offgrid %d)' % eps, shard=40, jobs=jobs)
+                               '(check_offgrid %d)' % eps, shard=40, jobs=jobs, timeout=240)
         for i, c in zip(ixs, ocodes):
             codes[i] = c
     return outs, kept, codes
@@ -415,6 +422,13 @@ def run_property(ctx, pid, fail_bits, mismatch_bits, dirs=('fwd', 'bwd'), extra=
             exact_disagree += 1
         desc = {'case': case, 'abstract_input': out['w'], 'outcome': out['outcome'], 'exc': out.get('exc'),
                 'observed': out.get('obs'), 'code': code}
+        if code & BITS['foreign_rows']:
+            what = 'the usage report of the returned schedule contains rows of tasks or resources that are not in that schedule'
+            if pid in ('C03', 'C04', 'C06', 'C08', 'C09'):
+                ctx.failure('%s/%s/foreign-usage-rows' % (pid, case['dir']), what, desc)
+            else:
+                ctx.mismatch(what, desc)
+            continue
         if case.get('offgrid'):
             if code & offgrid_fail:
                 names = [k for k, v in BITS.items() if code & offgrid_fail & v]
